@@ -81,6 +81,11 @@ class CallMixin:
             yield from B.call_listmeth(self, st, fv.data[0], fv.data[1], args, node)
         elif tag == 'exc':
             yield st, VExc(fv.data[0])
+        elif tag == 'uf':
+            f, rk = fv.data
+            if len(args) != 1 or not isinstance(args[0], VObj):
+                raise Unsupported("uninterpreted callable applied to a non-object")
+            yield st, rk.from_cols([f(args[0].t)])
         else:
             raise Unsupported(f"call tag {tag}")
 
@@ -289,7 +294,7 @@ class CallMixin:
             if p not in fr.env:
                 raise Unsupported(f"contract {spec.fid}: parameter {p} not bound")
             v = fr.env[p]
-            cv = self.coerce(st, v, kind) if not isinstance(v, VListRef) or True else v
+            cv = v if isinstance(kind, FUNC) and isinstance(v, VFunc) else self.coerce(st, v, kind)
             if cv is None:
                 raise Unsupported(f"contract {spec.fid}: argument {p} ({type(v).__name__}:{getattr(v,'kind','?')}) does not fit kind {kind}")
             names[p] = cv
